@@ -372,6 +372,7 @@ def run(ctx):
         unwritable_everywhere(ctx, forest)
         regex_operands(ctx, forest)
         regex_generated(ctx, forest)
+        regex_refs(ctx)
         fprintf_keeps_file(ctx, forest)
         panic_inventory(ctx)
     finally:
@@ -482,7 +483,14 @@ REGEX_OPERANDS = [("posix-extended", "a{2,1}", False), ("posix-basic", "a\\{2,1\
                   ("grep", ".*\\(\\{2,1\\}\\)", True), ("grep", "\\{2,1\\}", True), ("grep", ".*a\\|\\{2,1\\}", True), ("grep", "a**", True), ("grep", "a\\{1\\}\\{2\\}", True),
                   ("grep", "a\\{2,1\\}", False), ("grep", "\\(a\\)\\{2,1\\}", False),
                   ("posix-extended", ".*\\.[[:word:]]", False), ("posix-basic", ".*\\.[[:word:]]", False), ("grep", ".*\\\\[[:ascii:]]", False), ("posix-extended", "\\)[[:word:]]", False),
-                  ("posix-extended", "\\.[[:alpha:]]", True)]
+                  ("posix-extended", "\\.[[:alpha:]]", True),
+                  # (eighth wave) a bracket expression that GNU's reading never closes (the engine takes the "]" of ".]" / "=]" for its end);
+                  # an equivalence class is no end point of a range, a collating symbol is
+                  ("emacs", "[[.-.]", False), ("posix-extended", ".*[[.].](\\1)", False), ("posix-basic", "\\./[[=[=]*", False), ("grep", "[a[.].]", False),
+                  ("posix-extended", "[[:alpha:][.-.]\\+", False), ("posix-extended", "[[.-.]]", True), ("emacs", "[[=]=]]", True),
+                  ("posix-extended", "[[=a=]-c]", False), ("emacs", "[[=a=]-[=c=]]", False), ("grep", "[a-[=z=]]", False), ("posix-extended", "[--[=b=]]", False),
+                  ("posix-basic", "[]-[=b=]]", False), ("posix-extended", "[[.a.]-[=b=]]", False), ("posix-extended", "[[=b=]-]", True), ("posix-extended", "[-[=b=]]", True),
+                  ("posix-extended", "[[.a.]-z]", True), ("posix-extended", "[a-[.c.]]", True), ("posix-basic", "[[.a.]-[.z.]]", True), ("posix-extended", "[[.a.]\\(]", True)]
 
 
 def fprintf_keeps_file(ctx, forest):
@@ -543,7 +551,7 @@ def regex_generated(ctx, forest):
     def pieces(ty):
         ext = ty == "posix-extended"
         lb, rb, lp, rp = ("{", "}", "(", ")") if ext else ("\\{", "\\}", "\\(", "\\)")
-        bad = ["[[.]", "[a[=]", "[[.ab.]]", "[^[=abc=]]", lp + "a", "\\9"]
+        bad = ["[[.]", "[a[=]", "[[.ab.]]", "[^[=abc=]]", lp + "a", "\\9", "[[=a=]-c]", "[a-[=c=]]"]
         good = ["[[.a.]]", "[[=b=]c]", "[^[.c.]]", "[[.a.]-c]", lp + "a" + rp]
         if ty != "emacs":
             bad += ["[[:word:]]", "[[:ascii:]]", "[^[:foo:]x]", "[a[:b]", "[[:ALPHA:]]", "a%s2,1%s" % (lb, rb), "b%s32768%s" % (lb, rb), "c%s1,99999%s" % (lb, rb)]
@@ -595,6 +603,50 @@ def regex_generated(ctx, forest):
                       % (ty, txt, code, len(out), atom, "valid" if valid else "invalid"),
                       {"property": "C11", "kind": "regex-generated", "regextype": ty, "operand": txt, "planted": atom, "valid": valid, "exit": str(code),
                        "stderr": err.decode("utf-8", "replace")[:200], "total_disagreements": len(bad)})
+
+
+def regex_refs(ctx):
+    """check_back_references (hook) against the RegexRefs model, whose one pass is proved to decide what the recursion over the
+    pattern's structure says (C11_back_references_one_pass): every pattern up to a length bound over the characters the check
+    looks at, and longer ones made of pieces, in the four syntaxes"""
+    import itertools
+    rng = ctx.rng
+    alpha = ["\\", "(", ")", "|", "[", "]", "1", "2", "a", "\n", ":", "^"]
+    pats = []
+    for n in range(0, (4 if ctx.thorough else 3) + 1):
+        for tup in itertools.product(alpha, repeat=n):
+            pats.append("".join(tup))
+    pieces = ["\\(", "\\)", "\\|", "(", ")", "|", "\\1", "\\2", "\\3", "\\9", "a", "\n", "[a)]", "[(]", "[]|]", "[^](]", "[[:alpha:]]", "[[:x:]", "[[.a.]]", "[[=(=]", "[[:", "[",
+              "\\\\", "\\[", "\\]", "\u00e9", "*", "\\{1\\}", "{2}"]
+    for _ in range(30000 if ctx.thorough else 3000):
+        pats.append("".join(rng.choice(pieces) for _ in range(rng.randint(1, 10))))
+    cases = [(p, e) for p in pats for e in ("emacs", "posix-basic", "posix-extended", "grep")]
+    # every sequence of the operators the check knows - a group opens, a group closes (also where none is open), an alternation, a
+    # reference to the first or second group, anything else - up to a length bound, written in each syntax
+    for e in ("emacs", "posix-basic", "posix-extended", "grep"):
+        ext = e == "posix-extended"
+        ops = ["(", ")", "|"] if ext else ["\\(", "\\)", "\\|"]
+        if e == "grep":
+            ops.append("\n")
+        toks = ops + ["\\1", "\\2", "a"]
+        for n in range(4, (7 if ctx.thorough else 6) + 1):
+            for tup in itertools.product(toks, repeat=n):
+                if (ops[1] in tup or ops[2] in tup or "\n" in tup) and ("\\1" in tup or "\\2" in tup):
+                    cases.append(("".join(tup), e))
+    il = ["rxrefs %s %s" % (e, fw.hexs(p.encode())) for p, e in cases]
+    ml = ["rxrefs %s %s" % (e, ".".join(str(ord(c)) for c in p) if p else "-") for p, e in cases]
+    impl = fw.run_lines(fw.FUV, il)
+    model = fw.run_lines(fw.FUVM, ml)
+    bad = []
+    for (p, e), i, m in zip(cases, impl, model):
+        ctx.count(("refs", p, e), "\\" in p or e == "posix-extended", ["back-references", "regextype=%s" % e, "ok=%s" % m, "len=%s" % (len(p) if len(p) < 6 else "6+")])
+        if i != m:
+            bad.append((p, e, i, m))
+    for p, e, i, m in bad[:3]:
+        ctx.violation("check_back_references(%r, %s): implementation %s, RegexRefs model %s" % (p, e, i, m),
+                      {"property": "C11", "kind": "back-references", "pattern": p, "regextype": e, "implementation": i, "model": m,
+                       "explain": "the model's verdict is proved to be the one of the recursion over the pattern's structure (C11_back_references_one_pass): a "
+                                  "reference is valid when its group, or a group holding it, was closed before it in the same alternative", "total_disagreements": len(bad)})
 
 
 def panic_inventory(ctx):
